@@ -41,20 +41,9 @@ def run(ctx):
     per_group, n_pres = (1, 1) if ctx.tier == "quick" else (4, 3)
     cases, disc = H.family(ctx, build["tables"], per_group, n_pres)
     # a broken table clause about a normalizer: aim the search at crystals for which that normalizer is applied
-    targeted = []
     if not build["ok"]:
-        from props.c14 import offenders_from_build
-        from lib import crystals as K
-        offs, _ = offenders_from_build(build)
-        tg = sorted({(o["sg"], o["k"]) for o in offs if o["clause"].startswith("norm-") and "k" in o})[:8]
-        nid = 10**6
-        for (sg, k) in tg:
-            for pat in H.patterns_selecting(build["tables"], sg, k, ctx.rng):
-                cr = K.make_crystal(sg, ctx.rng, pat, build["tables"])
-                if cr is not None and K.stable_group(cr) == sg:
-                    targeted.append({"id": nid, "sg": sg, "base": nid, "crystal": cr, "pres": {"kind": "targeted", "normalizer": k, "pattern": pat}})
-                    nid += 1
-        ctx.coverage["targeted_search"] = {"normalizers": tg, "crystals": len(targeted)}
+        targeted, summ = H.targeted_cases(build, ctx.rng)
+        ctx.coverage["targeted_search"] = summ
         cases = targeted + cases
     rows, reuse_rows = H.run_impl(cases, reuse=True)
     known = C.load_known("C05")
@@ -101,8 +90,9 @@ def run(ctx):
     ctx.add_cases(len(reuse_rows), len(reuse_rows))
     for r in bad_reuse[:1]:
         c = by_id[r["id"]]
-        ctx.violation({"kind": "property-fails-on-implementation", "history": "one SymmetryAnalyzer instance fed successive crystals through set_system(); "
-                       "the answer for this crystal differs from a freshly constructed analyzer", "crystal": c["crystal"], "sg": c["sg"], "detail": r,
+        ctx.violation({"kind": "property-fails-on-implementation", "history": "one SymmetryAnalyzer instance fed successive structures through set_system() -- new Atoms objects and the same "
+                       "Atoms object edited in place (strained, substituted); at step detail.step the answer differs from a freshly constructed analyzer "
+                       "on a copy of the structure", "crystal": c["crystal"], "sg": c["sg"], "detail": r,
                        "broken_obligation": broken}, found_input=True)
     for (c, r) in errs[:1]:
         ctx.violation({"kind": "analyzer-raised", "crystal": c["crystal"], "sg": c["sg"], "error": r, "broken_obligation": broken}, found_input=True)
